@@ -24,14 +24,14 @@ Print Assumptions C10_below_minimum_discards.
 
 (* not enabled, for the compile-time or for the runtime reason: no Call, no Format, no Sink — in both forms *)
 Theorem C10_disabled_no_evaluation_one_expression : forall cfg th lg sv tag its,
-  gate_open (c_min cfg) sv = false \/ holds (th (lg_rec lg)) (lg_filter lg) sv = false ->
+  gate_open (c_min cfg) sv = false \/ holds (th (lg_rec lg)) (lg_filter lg) sv (rec_tag lg tag) = false ->
   exec_one cfg th lg sv tag its = [].
 Proof. exact one_disabled_nothing. Qed.
 Print Assumptions C10_disabled_no_evaluation_one_expression.
 
 Theorem C10_disabled_no_evaluation_named : forall cfg w v lg sv tag its,
   w_slots w v = None ->
-  gate_open (c_min cfg) sv = false \/ holds (w_th w (lg_rec lg)) (lg_filter lg) sv = false ->
+  gate_open (c_min cfg) sv = false \/ holds (w_th w (lg_rec lg)) (lg_filter lg) sv (rec_tag lg tag) = false ->
   snd (exec_prog cfg w (named_ops v lg sv tag its)) = [].
 Proof. exact named_disabled_nothing. Qed.
 Print Assumptions C10_disabled_no_evaluation_named.
@@ -39,14 +39,14 @@ Print Assumptions C10_disabled_no_evaluation_named.
 (* enabled: the Call events are exactly the streamed callables in streaming order … *)
 Theorem C10_calls_exactly : forall cfg th lg sv tag its,
   filter is_call (exec_one cfg th lg sv tag its)
-  = if enabled (c_min cfg) th lg sv then map Call (calls_of its) else [].
+  = if enabled (c_min cfg) th lg sv tag then map Call (calls_of its) else [].
 Proof. exact one_calls_exactly. Qed.
 Print Assumptions C10_calls_exactly.
 
 (* … each called as often as it was streamed (once when streamed once), never more *)
 Theorem C10_once_each : forall cfg th lg sv tag its id,
   count (is_call_of id) (exec_one cfg th lg sv tag its)
-  = if enabled (c_min cfg) th lg sv then count_occ Nat.eq_dec (calls_of its) id else 0.
+  = if enabled (c_min cfg) th lg sv tag then count_occ Nat.eq_dec (calls_of its) id else 0.
 Proof. exact one_calls_once_each. Qed.
 Print Assumptions C10_once_each.
 
@@ -76,14 +76,14 @@ Print Assumptions C10_called_when_streamed.
 (* … and a stream obtained from a logger call takes insertions iff its statement is enabled, before and after any
    number of insertions *)
 Theorem C10_live_iff_enabled : forall cfg th lg sv tag its,
-  stream_live (fst (stream_puts (make_stream cfg th lg sv tag) its)) = enabled (c_min cfg) th lg sv.
+  stream_live (fst (stream_puts (make_stream cfg th lg sv tag) its)) = enabled (c_min cfg) th lg sv tag.
 Proof. exact live_iff_enabled. Qed.
 Print Assumptions C10_live_iff_enabled.
 
 (* one-expression form: after any prefix of the `<<` chain exactly the prefix's callables have been called and the
    buffer holds exactly the prefix's text — each callable is evaluated before any later item is appended *)
 Theorem C10_chain_prefix : forall th lg sv tag pre,
-  holds (th (lg_rec lg)) (lg_filter lg) sv = true ->
+  holds (th (lg_rec lg)) (lg_filter lg) sv (rec_tag lg tag) = true ->
   exists olds,
     one_chain (ss_construct th lg sv tag) [] pre
     = ((liveb (mkRecord sv (rec_tag lg tag) []) (message pre) (bad_after false pre), olds), map Call (calls_of pre)).
@@ -101,6 +101,21 @@ Print Assumptions C10_chain_composes.
 Theorem C10_program_refines_spec : forall cfg ops, run cfg ops = spec_run cfg ops.
 Proof. exact run_refines_spec. Qed.
 Print Assumptions C10_program_refines_spec.
+
+(* the run-time filter is asked about the COMPLETE record — severity and tag already set: a stream obtained from a logger call
+   takes insertions (so: its callables run, formatter and sink run at its end) iff the gate is open and the filter code
+   accepts the record carrying the statement's tag; a statement whose tagged record the filter rejects does nothing *)
+Theorem C10_filter_verdict_on_complete_record : forall cfg th lg sv tag its,
+  stream_live (fst (stream_puts (make_stream cfg th lg sv tag) its))
+  = gate_open (c_min cfg) sv && filt (th (lg_rec lg)) (lg_filter lg) (mkRecord sv (rec_tag lg tag) []).
+Proof. exact live_iff_filter_on_complete_record. Qed.
+Print Assumptions C10_filter_verdict_on_complete_record.
+
+Theorem C10_rejected_by_tag_nothing : forall cfg th lg sv tag its,
+  filt (th (lg_rec lg)) (lg_filter lg) (mkRecord sv (rec_tag lg tag) []) = false ->
+  exec_one cfg th lg sv tag its = [] /\ exec_named cfg th lg sv tag its = [].
+Proof. exact rejected_on_complete_record_nothing. Qed.
+Print Assumptions C10_rejected_by_tag_nothing.
 
 Module Examples.
 Import Strings.String.
@@ -121,6 +136,11 @@ Example C10_ex_after_failed_insertion :
   exec_one cfg_warn init_thresholds lg_t0 Fatal None [ICall KFunctor 1 (B "x"); IFail FNullCStr; ICall KLambda 2 (B "y"); IStr (B "z")]
   = [Call 1; Call 2; Format (mkRecord Fatal (B "") (B "x")); Sink 0 Fatal (B "5||x"); Sink 1 Fatal (B "5||x")].
 Proof. reflexivity. Qed.
-Example C10_ex_gate_hyp : gate_open Warn Info = false /\ holds (th_err 0) (FThr 0) Warn = false.
+Example C10_ex_gate_hyp : gate_open Warn Info = false /\ holds (th_err 0) (FThr 0) Warn (B "") = false.
+Proof. split; reflexivity. Qed.
+Definition lg_mute := mkLogger 0 true (FAnd (FThr 0) (FTag false (B "noisy"))) (flat_sinks 1).
+Example C10_ex_muted_tag_calls_nothing :
+  exec_one cfg_warn init_thresholds lg_mute Error (Some (B "noisy")) [ICall KLambda 1 (B "x"); ICall KFunctor 2 (B "y")] = []
+  /\ filter is_call (exec_one cfg_warn init_thresholds lg_mute Error None [ICall KLambda 1 (B "x"); ICall KFunctor 2 (B "y")]) = [Call 1; Call 2].
 Proof. split; reflexivity. Qed.
 End Examples.
